@@ -30,6 +30,23 @@ def renderOut (o : List (Tag × List (Tok Nat))) : String :=
 def renderSt (s : St Nat) : String :=
   renderOut s.out ++ "|term=" ++ (match s.terminated with | some st => st.render | none => "-")
 
+/-- `l:<tag>:<n>` (list of n elements 0..n-1) | `o:<tag>` | `t:<STATUS>` | `r:<tag>,<tag>…` (restore; `r:-` = no valid tag) -/
+def parseSIn (w : String) : Option (SIn Nat) :=
+  match w.splitOn ":" with
+  | ["l", t, n] => do
+      let tag ← parseTag t
+      let k ← n.toNat?
+      pure (.list tag (List.range k))
+  | ["o", t] => (parseTag t).map .other
+  | ["t", st] => (Status.parse st).map .term
+  | ["r", ts] => if ts = "-" then some (.restore []) else ((ts.splitOn ",").mapM parseTag).map .restore
+  | _ => none
+
+def renderSSt (s : SSt Nat) : String :=
+  (if s.elems.isEmpty then "-" else ",".intercalate (s.elems.map renderTok)) ++ "|sizes=" ++
+  (if s.sizes.isEmpty then "-" else ",".intercalate (s.sizes.map (fun z => renderTag z.1 ++ ":" ++ toString z.2))) ++ "|term=" ++
+  (match s.terminated with | some st => st.render | none => "-") ++ (if s.raised then "|raised" else "")
+
 def handle : List String → String
   | ["scatter", t, n] =>
       match parseTag t, n.toNat? with
@@ -37,6 +54,10 @@ def handle : List String → String
           let (els, sz) := scatter tag (List.range k)
           (if els.isEmpty then "-" else ",".intercalate (els.map renderTok)) ++ "|size=" ++ renderTag sz.1 ++ ":" ++ toString sz.2
       | _, _ => "bad-op"
+  | "scatterrun" :: ins =>
+      match ins.mapM parseSIn with
+      | some es => renderSSt (srun es)
+      | none => "bad-op"
   | "gather" :: d :: evs =>
       match d.toNat?, evs.mapM parseEv with
       | some depth, some es => renderSt (run depth es)
